@@ -5,6 +5,7 @@ import (
 	"fmt"
 	"hash/fnv"
 	"reflect"
+	"sort"
 	"strings"
 )
 
@@ -830,6 +831,46 @@ func fillHashHelper(r interface{}, depth int, env *Zlisp, preferSym bool) (Sexp,
 
 	default:
 		//Q("unknown type in type switch, val = %#v.  type = %T.\n", val, val)
+
+		// typed slices ([]int64, []string, []Flyer, []*T, ...) and maps
+		// keyed by strings: translate element by element rather than
+		// dropping the whole field.
+		rv := reflect.ValueOf(r)
+		switch rv.Kind() {
+		case reflect.Slice, reflect.Array:
+			if rv.Kind() == reflect.Slice && rv.IsNil() {
+				return SexpNull, nil
+			}
+			slice := make([]Sexp, 0, rv.Len())
+			for i := 0; i < rv.Len(); i++ {
+				sx2, err := fillHashHelper(rv.Index(i).Interface(), depth+1, env, preferSym)
+				if err != nil {
+					return SexpNull, fmt.Errorf("error in fillHashHelper() call: '%s'", err)
+				}
+				slice = append(slice, sx2)
+			}
+			return &SexpArray{Val: slice, Env: env}, nil
+		case reflect.Map:
+			if rv.IsNil() || rv.Type().Key().Kind() != reflect.String {
+				return SexpNull, nil
+			}
+			byName := make(map[string]reflect.Value)
+			names := make([]string, 0, rv.Len())
+			for _, k := range rv.MapKeys() {
+				byName[k.String()] = k
+				names = append(names, k.String())
+			}
+			sort.Strings(names)
+			pairs := make([]Sexp, 0, 2*len(names))
+			for _, name := range names {
+				ele, err := fillHashHelper(rv.MapIndex(byName[name]).Interface(), depth+1, env, preferSym)
+				if err != nil {
+					return SexpNull, fmt.Errorf("error in fillHashHelper() call: '%s'", err)
+				}
+				pairs = append(pairs, env.MakeSymbol(name), ele)
+			}
+			return MakeHash(pairs, "hash", env)
+		}
 	}
 
 	return SexpNull, nil
